@@ -12,7 +12,7 @@ Definition btrig (cl tr : bool) : rtrig :=
      q_trace := tr; q_caller := cl; q_hide := false |}.
 Definition classB (c : cfg) : Prop :=
   (forall f, trig_of c f = btrig (q_caller (trig_of c f)) (q_trace (trig_of c f)))
-  /\ fmode_in c = false /\ 1 <= gdepth c.
+  /\ fmode_in c = false /\ 1 <= gdepth c /\ loc_free_all c.
 
 Definition FrB (cl tr wr : bool) (a t0 t1 ri dp : N) : MC.frame :=
   {| MC.f_addr := a; MC.f_start := t0; MC.f_end := t1;
@@ -55,7 +55,7 @@ Section RecB.
        true :: hk).
   Proof.
     intros Hl Hd. assert (Hidx : (1024 <=? N.of_nat (length stk))%N = false) by lia.
-    destruct HB as (Htr & Hfm & _).
+    destruct HB as (Htr & Hfm & _ & _).
     mstep. rewrite Hidx. cbn. rewrite (Htr f). cbn. rewrite Hfm. cbn. rewrite Hd. cbn. rewrite ?andb_false_r.
     rewrite (Htr f). cbn. reflexivity.
   Qed.
@@ -179,14 +179,14 @@ Fixpoint allev (d rd : Z) (n : call) : list vev :=
 
 Definition unfiltered (c : cfg) : Prop :=
   (forall f, q_filter (trig_of c f) = None /\ q_depth (trig_of c f) = None /\ q_hide (trig_of c f) = false)
-  /\ fmode_in c = false /\ plt_free_all c.
+  /\ fmode_in c = false /\ plt_free_all c /\ loc_free_all c.
 
 Lemma vis_all c : unfiltered c -> forall n inF bud d rd, heightZ n <= bud -> vis c inF bud d rd n = allev d rd n.
 Proof.
-  intros (Htr & Hfm & Hp). induction n as [f t0 t1 ks IH] using call_ind'. intros inF bud d rd Hb.
+  intros (Htr & Hfm & Hp & Hlf). induction n as [f t0 t1 ks IH] using call_ind'. intros inF bud d rd Hb.
   cbn [heightZ] in Hb. destruct (Htr f) as (Q1 & Q2 & Q3).
   assert (Hk : 0 <= fold_right Z.max 0 (map heightZ ks)) by (clear; induction ks; cbn; lia).
-  cbn [vis allev]. rewrite Q1, Q2, Q3, Hfm, (Hp f). cbn [negb andb orb].
+  cbn [vis allev]. rewrite Q1, Q2, Q3, Hfm, (Hp f), (loc_free_hidden c f Hlf). cbn [negb andb orb].
   replace (bud <=? 0) with false by lia. cbn [orb]. f_equal. f_equal.
   clear -IH Hb. induction IH as [|k ks Hkk _ IHks]; [reflexivity|]. cbn [map fold_right] in Hb.
   cbn [flat_map]. rewrite Hkk by lia. rewrite IHks by lia. reflexivity.
@@ -216,12 +216,13 @@ Theorem record_equals_replay_caller c f :
   Z.of_nat (fheight f) <= gdepth c ->
   rec_then_plain c MC.PG f = plain_then_opt c f.
 Proof.
-  intros HB Hp Hr Hwf Hh Hg. pose proof HB as (Htr & Hfm & Hgd).
+  intros HB Hp Hr Hwf Hh Hg. pose proof HB as (Htr & Hfm & Hgd & Hlf).
   assert (Hns : no_switch_all c) by (intro k; rewrite (Htr k); split; reflexivity).
   assert (Huc : unfiltered c).
-  { split; [|split; assumption]. intro k. rewrite (Htr k). repeat split; reflexivity. }
+  { split; [|repeat split; try assumption; apply Hlf]. intro k. rewrite (Htr k). repeat split; reflexivity. }
   assert (Hup : unfiltered plain).
-  { split; [intro k; repeat split; reflexivity|]. split; [reflexivity|]. intro k. reflexivity. }
+  { split; [intro k; repeat split; reflexivity|]. split; [reflexivity|]. split; [intro k; reflexivity|].
+    split; [intro; reflexivity|reflexivity]. }
   unfold rec_then_plain, plain_then_opt.
   rewrite (record_is_pruned c f HB Hwf Hh Hg).
   set (p := flat_map (tprune c (threshold c)) f).
@@ -249,9 +250,10 @@ Example hyps_classB : classB c_exB /\ wf_forest c_exB f_exB
      = [(false, 0%N); (false, 1%N); (false, 2%N); (true, 2%N); (false, 3%N); (true, 3%N); (true, 1%N); (true, 0%N)].
 Proof.
   split; [|split].
-  - unfold classB, c_exB, mkcfg. cbn [trig_of fmode_in gdepth]. split; [|split; [reflexivity|lia]].
+  - unfold classB, c_exB, mkcfg, mkcfgL, loc_free_all. cbn [trig_of fmode_in gdepth loc_of lmode_in].
+    split; [|repeat split; try reflexivity; lia].
     apply assoc_classB. repeat constructor.
-  - unfold wf_forest, c_exB, f_exB, mkcfg. cbn [threshold]. repeat constructor; cbn; unfold two64; try lia.
+  - unfold wf_forest, c_exB, f_exB, mkcfg, mkcfgL. cbn [threshold]. repeat constructor; cbn; unfold two64; try lia.
     all: vm_compute; congruence.
   - vm_compute. reflexivity.
 Qed.
